@@ -5,23 +5,29 @@ From LTV.C20 Require Import ParamsGen Model ProofsB ProofsC ProofsD ProofsG.
 Import ListNotations.
 Open Scope N_scope.
 
-Lemma less_true : forall a b, entry_less a b = true <->
-  fst a < fst b \/ (fst a = fst b /\ swap16 (snd a) < swap16 (snd b)).
+Section Ord.
+  Variable fx : fixes.
+
+Lemma less_true : forall a b, entry_less fx a b = true <->
+  key_addr fx (fst a) < key_addr fx (fst b) \/
+  (key_addr fx (fst a) = key_addr fx (fst b) /\ key_port fx (snd a) < key_port fx (snd b)).
 Proof.
   intros a b. unfold entry_less. rewrite orb_true_iff, andb_true_iff, !N.ltb_lt, N.eqb_eq. tauto.
 Qed.
-Lemma less_false : forall a b, entry_less a b = false <->
-  fst b < fst a \/ (fst a = fst b /\ swap16 (snd b) <= swap16 (snd a)).
+Lemma less_false : forall a b, entry_less fx a b = false <->
+  key_addr fx (fst b) < key_addr fx (fst a) \/
+  (key_addr fx (fst a) = key_addr fx (fst b) /\ key_port fx (snd b) <= key_port fx (snd a)).
 Proof.
-  intros a b. destruct (entry_less a b) eqn:E.
+  intros a b. destruct (entry_less fx a b) eqn:E.
   - apply less_true in E. split; [discriminate|]. lia.
   - split; [intros _|reflexivity].
-    assert (~ (fst a < fst b \/ (fst a = fst b /\ swap16 (snd a) < swap16 (snd b)))) by (rewrite <- less_true, E; discriminate). lia.
+    assert (~ (key_addr fx (fst a) < key_addr fx (fst b) \/
+               (key_addr fx (fst a) = key_addr fx (fst b) /\ key_port fx (snd a) < key_port fx (snd b)))) by (rewrite <- less_true, E; discriminate). lia.
 Qed.
 
 (* strictly ascending / ascending in SocketAddressCompact_less *)
-Definition asc_strict := StronglySorted (fun x y : entry => entry_less x y = true).
-Definition asc := StronglySorted (fun x y : entry => entry_less y x = false).
+Definition asc_strict := StronglySorted (fun x y : entry => entry_less fx x y = true).
+Definition asc := StronglySorted (fun x y : entry => entry_less fx y x = false).
 
 Lemma asc_strict_asc : forall l, asc_strict l -> asc l.
 Proof.
@@ -31,18 +37,18 @@ Qed.
 
 (* what std::set_difference keeps from a strictly ascending range has no counterpart in b *)
 Lemma set_diff_sound : forall a b, asc_strict a -> asc b ->
-  forall e, In e (set_diff a b) -> forall e', In e' b -> ~ same_entry e e'.
+  forall e, In e (set_diff fx a b) -> forall e', In e' b -> ~ same_entry fx e e'.
 Proof.
   induction a as [|x a IHa]; intros b Ha Hb e Hin e' Hin'; [destruct b; destruct Hin|].
   inversion Ha as [|? ? Ha' Hx]; subst. rewrite Forall_forall in Hx.
   induction b as [|y b IHb]; [destruct Hin'|].
   inversion Hb as [|? ? Hb' Hy]; subst. rewrite Forall_forall in Hy.
-  cbn in Hin. destruct (entry_less x y) eqn:L1.
+  cbn in Hin. destruct (entry_less fx x y) eqn:L1.
   - destruct Hin as [Hin|Hin].
     + subst e. intros [S1 S2]. apply less_true in L1.
       destruct Hin' as [E|E]; [subst e'; lia|]. specialize (Hy _ E). apply less_false in Hy. lia.
     + exact (IHa _ Ha' Hb _ Hin _ Hin').
-  - destruct (entry_less y x) eqn:L2.
+  - destruct (entry_less fx y x) eqn:L2.
     + destruct Hin' as [E|E].
       * subst e'. intros [S1 S2]. apply less_true in L2.
         assert (In e (x :: a)) as [E2|E2] by (eapply set_diff_subset; exact Hin); [subst e; lia|].
@@ -56,10 +62,10 @@ Proof.
 Qed.
 
 (* insertion sort gives an ascending list; strictly ascending when no two entries share a key *)
-Lemma insert_sorted_asc : forall x l, asc l -> asc (insert_sorted x l).
+Lemma insert_sorted_asc : forall x l, asc l -> asc (insert_sorted fx x l).
 Proof.
   intros x l H. induction H as [|y r Hr IH Hy]; cbn [insert_sorted]; [repeat constructor|].
-  destruct (entry_less y x) eqn:L.
+  destruct (entry_less fx y x) eqn:L.
   - constructor; [exact IH|]. rewrite Forall_forall in *. intros e He. apply insert_sorted_in in He.
     destruct He as [He|He]; [subst e; apply less_true in L; apply less_false; lia|apply Hy; exact He].
   - constructor; [constructor; assumption|]. rewrite Forall_forall in *. intros e [He|He].
@@ -67,14 +73,14 @@ Proof.
     + specialize (Hy _ He). apply less_false in Hy. apply less_false in L. apply less_false. lia.
 Qed.
 
-Lemma sort_entries_asc : forall l, asc (sort_entries l).
+Lemma sort_entries_asc : forall l, asc (sort_entries fx l).
 Proof. induction l as [|x r IH]; cbn; [constructor|apply insert_sorted_asc; exact IH]. Qed.
 
-Lemma insert_sorted_strict : forall x l, asc_strict l -> (forall e, In e l -> ~ same_entry x e) -> asc_strict (insert_sorted x l).
+Lemma insert_sorted_strict : forall x l, asc_strict l -> (forall e, In e l -> ~ same_entry fx x e) -> asc_strict (insert_sorted fx x l).
 Proof.
   intros x l H. induction H as [|y r Hr IH Hy]; intro Hn; cbn [insert_sorted]; [repeat constructor|].
-  assert (Hny : ~ same_entry x y) by (apply Hn; left; reflexivity). unfold same_entry in Hny.
-  destruct (entry_less y x) eqn:L.
+  assert (Hny : ~ same_entry fx x y) by (apply Hn; left; reflexivity). unfold same_entry in Hny.
+  destruct (entry_less fx y x) eqn:L.
   - constructor; [apply IH; intros e He; apply Hn; right; exact He|]. rewrite Forall_forall in *. intros e He.
     apply insert_sorted_in in He. destruct He as [He|He]; [subst e; exact L|apply Hy; exact He].
   - constructor; [constructor; assumption|]. rewrite Forall_forall in *. intros e [He|He].
@@ -82,20 +88,24 @@ Proof.
     + specialize (Hy _ He). apply less_true in Hy. apply less_false in L. apply less_true. lia.
 Qed.
 
-Lemma sort_entries_strict : forall l, NoDup (map fst l) -> asc_strict (sort_entries l).
+Definition akey (e : entry) : N := key_addr fx (fst e).
+
+Lemma sort_entries_strict : forall l, NoDup (map akey l) -> asc_strict (sort_entries fx l).
 Proof.
   induction l as [|x r IH]; intro H; cbn; [constructor|].
   cbn in H. inversion H; subst. apply insert_sorted_strict; [apply IH; assumption|].
-  intros e He [S1 _]. apply (proj1 (sort_entries_in r e)) in He. apply H2. rewrite S1. apply in_map. exact He.
+  intros e He [S1 _]. apply (proj1 (sort_entries_in fx r e)) in He. apply H2. unfold akey at 1. rewrite S1.
+  apply (in_map akey). exact He.
 Qed.
 
-Lemma current_entries_fst : forall l, NoDup (map c_peer l) -> NoDup (map fst (current_entries l)).
+Lemma current_entries_keys : forall l, NoDup (map (fun c => key_addr fx (c_peer c)) l) -> NoDup (map akey (current_entries l)).
 Proof.
   induction l as [|c r IH]; intro H; cbn; [constructor|]. cbn in H. inversion H; subst.
   unfold current_entries in *. cbn [filter]. destruct (negb (x_listen (c_x c) =? 0)); [|apply IH; assumption].
   cbn. constructor; [|apply IH; assumption]. intro Hin. apply H2.
-  apply in_map_iff in Hin. destruct Hin as ([p q] & E1 & E2). cbn in E1. subst p.
-  apply in_map_iff in E2. destruct E2 as (c0 & E3 & E4). inversion E3; subst. apply filter_In in E4. apply in_map. exact (proj1 E4).
+  apply in_map_iff in Hin. destruct Hin as ([p q] & E1 & E2). unfold akey in E1. cbn in E1.
+  apply in_map_iff in E2. destruct E2 as (c0 & E3 & E4). inversion E3; subst. apply filter_In in E4.
+  rewrite <- E1. apply (in_map (fun c => key_addr fx (c_peer c))). exact (proj1 E4).
 Qed.
 
 (* PEX 'dropped' exactness for one round (at most 200 listed peers): every dropped entry was
@@ -103,19 +113,19 @@ Qed.
    Hypotheses: m_ut_pex_list strictly ascending (it is the previous round's sorted list) and no two
    connections of the same peer (PeerList admits one connection per address). *)
 Theorem pex_dropped_exact : forall d d1 a r e,
-  do_peer_exchange d = DpeOk d1 ->
-  N.of_nat (length (sort_entries (current_entries (d_conns d)))) <= Params.c20_max_pex_list ->
+  do_peer_exchange fx d = DpeOk d1 ->
+  N.of_nat (length (sort_entries fx (current_entries (d_conns d)))) <= Params.c20_max_pex_list ->
   asc_strict (d_list d) ->
   d_delta d1 = Some (a, r) -> In e r ->
-  In e (d_list d) /\ forall e', In e' (sort_entries (current_entries (d_conns d))) -> ~ same_entry e e'.
+  In e (d_list d) /\ forall e', In e' (sort_entries fx (current_entries (d_conns d))) -> ~ same_entry fx e e'.
 Proof.
   intros d d1 a r e E Hcap Hs Hd Hin.
-  destruct (dpe_shape d d1 E) as (added' & list' & Hsh & Hl & Hi & Hdl). cbv zeta in Hsh.
+  destruct (dpe_shape fx d d1 E) as (added' & list' & Hsh & Hl & Hi & Hdl). cbv zeta in Hsh.
   destruct Hsh as [(Hc & _ & _)|(Hc & Ea & El)]; [apply N.ltb_lt in Hc; lia|]. subst added' list'.
   rewrite Hdl in Hd. unfold dpe_buffers in Hd.
-  set (cur := sort_entries (current_entries (d_conns d))) in *.
-  assert (R : r = set_diff (d_list d) cur).
-  { destruct (set_diff cur (d_list d)); destruct (set_diff (d_list d) cur); cbn in Hd; try discriminate Hd; inversion Hd; reflexivity. }
+  set (cur := sort_entries fx (current_entries (d_conns d))) in *.
+  assert (R : r = set_diff fx (d_list d) cur).
+  { destruct (set_diff fx cur (d_list d)); destruct (set_diff fx (d_list d) cur); cbn in Hd; try discriminate Hd; inversion Hd; reflexivity. }
   subst r. split; [eapply set_diff_subset; exact Hin|].
   intros e' He'. eapply set_diff_sound; eauto. apply sort_entries_asc.
 Qed.
@@ -123,11 +133,12 @@ Qed.
 (* ... and the list that results is strictly ascending again when the peers are distinct, so the
    hypothesis is an invariant of the rounds *)
 Theorem pex_list_strict_after_round : forall d d1,
-  do_peer_exchange d = DpeOk d1 ->
-  N.of_nat (length (sort_entries (current_entries (d_conns d)))) <= Params.c20_max_pex_list ->
-  NoDup (map c_peer (d_conns d)) -> asc_strict (d_list d1).
+  do_peer_exchange fx d = DpeOk d1 ->
+  N.of_nat (length (sort_entries fx (current_entries (d_conns d)))) <= Params.c20_max_pex_list ->
+  NoDup (map (fun c => key_addr fx (c_peer c)) (d_conns d)) -> asc_strict (d_list d1).
 Proof.
-  intros d d1 E Hcap Hn. destruct (dpe_shape d d1 E) as (added' & list' & Hsh & Hl & _). cbv zeta in Hsh.
+  intros d d1 E Hcap Hn. destruct (dpe_shape fx d d1 E) as (added' & list' & Hsh & Hl & _). cbv zeta in Hsh.
   destruct Hsh as [(Hc & _ & _)|(Hc & Ea & El)]; [apply N.ltb_lt in Hc; lia|]. subst list'. rewrite Hl.
-  apply sort_entries_strict. apply current_entries_fst. exact Hn.
+  apply sort_entries_strict. apply current_entries_keys. exact Hn.
 Qed.
+End Ord.
